@@ -136,7 +136,8 @@ def mutate_attr(
             )
 
     # If not inplace, copy before writing new value for attribute
-    if not (inplace or metadata and metadata.do_not_copy):
+    private_copy = not (inplace or metadata and metadata.do_not_copy)
+    if private_copy:
         obj = copy.deepcopy(obj)
 
     # If dependants are going to be invalidated (which may run user code, such
@@ -151,6 +152,17 @@ def mutate_attr(
     saved_state = dict(obj.__dict__) if live and will_invalidate else None
 
     # Perform actual mutation
+    # (A write to a private copy of a frozen instance may run user code, such
+    # as a property setter that stores the value in some other attribute of the
+    # instance; that code acts under the same licence.)
+    licensed = bool(
+        (force or private_copy)
+        and metadata
+        and metadata.frozen
+        and "__spec_class_initializing__" not in getattr(obj, "__dict__", {})
+    )
+    if licensed:
+        obj.__dict__["__spec_class_initializing__"] = True
     try:
         getattr(obj.__setattr__, "__raw__", setattr)(obj, attr, value)
     except AttributeError as e:
@@ -167,6 +179,9 @@ def mutate_attr(
                 f"Cannot set `{obj.__class__.__name__}.{attr}` to `{value}`. Is this a property without a setter?"
             ) from e
         raise
+    finally:
+        if licensed:
+            obj.__dict__.pop("__spec_class_initializing__", None)
 
     # Invalidate any caches depending on this attribute
     if will_invalidate:
